@@ -7,7 +7,7 @@ use std::sync::Arc;
 use super::{
     daily_log::DailyMutations,
     edge::{Edge, EdgeDeletionEntry},
-    node::{Node, NodeDeletionEntry},
+    node::{extract_json, Node, NodeDeletionEntry},
     query_language::{deletion_parser::DeletionParser, parameter::Parameters},
     sqlite_database::Writeable,
     Result,
@@ -18,6 +18,8 @@ pub struct NodeDelete {
     pub name: String,
     //   pub short_name: String,
     pub date: i64,
+    //text to remove from the full text index
+    pub fts_str: Option<String>,
 }
 #[derive(Debug)]
 pub struct EdgeDelete {
@@ -63,11 +65,23 @@ impl DeletionQuery {
             let node = Node::get_with_entity(&src, &del.short_name, conn)?;
             if let Some(node) = node {
                 if del.references.is_empty() {
+                    let mut fts_str = None;
+                    if del.enable_full_text {
+                        if let Some(json_str) = &node._json {
+                            let json: serde_json::Value = serde_json::from_str(json_str)?;
+                            let mut text = String::new();
+                            extract_json(&json, &mut text)?;
+                            if !text.is_empty() {
+                                fts_str = Some(text);
+                            }
+                        }
+                    }
                     deletion_query.nodes.push(NodeDelete {
                         node: *node,
                         name: del.name.clone(),
                         //  short_name: del.short_name.clone(),
                         date,
+                        fts_str,
                     })
                 } else {
                     let mut reference_deleted = false;
@@ -116,6 +130,10 @@ impl DeletionQuery {
             log.write(conn)?;
         }
         for nod in &self.nodes {
+            //the index entry must not be inherited by a node that would reuse the rowid
+            if let (Some(rowid), Some(text)) = (nod.node._local_id, &nod.fts_str) {
+                Node::delete_fts(rowid, text, conn)?;
+            }
             Node::delete(&nod.node.id, conn)?;
             Edge::delete_src(&nod.node.id, conn)?;
             Edge::delete_dest(&nod.node.id, conn)?;
